@@ -42,7 +42,7 @@ COMPONENTS = {
     'real': ['demux.py __main__ (argument handling, library/lane detection, -n budget across lanes, --norejects, --scsepf, -fh, log file) re-executed with runpy in a forked child for ~1% (quick) / 4% (thorough) of the cases', 'DemultiplexingStrategyLoader.demultiplex', 'all registered strategy classes', 'BarcodeParser', 'FastqIterator', 'FastqHandle', 'HandleLimiter', 'gzip'],
     'stub': ['recording proxies around targetFile / rejectHandle / FastqIterator.__next__ (delegating)', 'SimFS fd budget + SimClock behind HandleLimiter in per-cell mode'],
 }
-REQUIRED_PROBES = ['cli_chunked_workflow', 'cli_argv_shuffled', 'cli_rerun_into_existing_output', 'cli_run', 'cli_multi_lane', 'cli_cutoff_hit', 'accepted_and_rejected_in_one_run', 'cutoff_hit', 'per_cell_output', 'fd_budget_fault_fired', 'no_reject_handle', 'high_phred_in_umi', 'unknown_index']
+REQUIRED_PROBES = ['cli_two_libraries_in_one_invocation', 'cli_chunked_workflow', 'cli_argv_shuffled', 'cli_rerun_into_existing_output', 'cli_run', 'cli_multi_lane', 'cli_cutoff_hit', 'accepted_and_rejected_in_one_run', 'cutoff_hit', 'per_cell_output', 'fd_budget_fault_fired', 'no_reject_handle', 'high_phred_in_umi', 'unknown_index']
 
 _LOADERS = {}
 _INDEXES = None
@@ -227,6 +227,10 @@ def generate(seed, tier):
             cli['n'] = None
             cli['prior'] = None
             cli['scsepf'] = False       # demux.py itself never chunks one-file-per-cell runs (submit_in_chunks = not args.scsepf ...)
+        elif cli['prior'] is None and st.schedule.random() < 0.5:
+            # a second library in the same invocation (the usual way to call the tool: a folder of FASTQ files); its name sorts before or after
+            # the library under study; -n is a per-library cut-off
+            cli['other_lib'] = {'name': st.schedule.choice(['LIBA', 'LIBZ']), 'k': st.schedule.randint(1, max(1, min(n, 12)))}
     return {'params': params, 'workload': reads, 'cli': cli}
 
 
@@ -556,6 +560,15 @@ def _cli_layer(case, d, log, viol, probe):
                     f.write(f"{rd['h'][r]}\n{rd['s'][r]}\n+\n{rd['q'][r]}\n")
             files.append(path)
             lane_files.setdefault(lane, []).append(path)
+    ol = c.get('other_lib')
+    if ol:
+        for r in range(nm):
+            path = os.path.join(d, f"{ol['name']}_L001_R{r + 1}_001.fastq.gz")
+            with gzip.open(path, 'wt', compresslevel=1) as f:
+                for rd in reads[:ol['k']]:
+                    f.write(f"{rd['h'][r]}\n{rd['s'][r]}\n+\n{rd['q'][r]}\n")
+            files.append(path)
+        probe('cli_two_libraries_in_one_invocation')
     if c.get('argv_order') is not None:
         import random as _random
         _random.Random(c['argv_order']).shuffle(files)      # the tool sorts its inputs; any listing order must give the same result
@@ -637,6 +650,23 @@ def _cli_layer(case, d, log, viol, probe):
     if res.get('exception'):
         V('demultiplex-raised', 'cli/' + res['exception'].split(':')[0], error=res['exception'])
         return
+    if ol and not c['norejects']:
+        # the other library is held to plain record accounting: pairs consumed (its own cut-off) = demultiplexed + rejected records
+        od = os.path.join(out, ol['name'])
+        want_o = ol['k'] if c['n'] is None else min(ol['k'], c['n'])
+        got_o = 0
+        for fn in (sorted(os.listdir(od)) if os.path.isdir(od) else []):
+            if fn.endswith('R1.fastq.gz') and (fn.startswith('demultiplexed') or fn.startswith('rejects')):
+                try:
+                    with open(os.path.join(od, fn), 'rb') as f:
+                        raw = f.read()
+                    got_o += len(_parse_fastq(gzip.decompress(raw).decode() if raw else '') or [])
+                except Exception:
+                    got_o = -1
+                    break
+        log.add('cli-other-lib', ol['name'], got_o)
+        if got_o != want_o:
+            V('pair-lost' if 0 <= got_o < want_o else 'pair-extra', 'cli/other-library-in-same-invocation', library=ol['name'], n_written=got_o, n_expected=want_o)
     lib_dir = os.path.join(out, 'LIBX')
     cutoff = n if c['n'] is None else min(n, c['n'])
     if c['n'] is not None and c['n'] < n:
